@@ -8,6 +8,7 @@ INJECT = {
     "src/metadata.rs": "metadata_h.rs",
     "src/block.rs": ["block_h.rs", ("ac_model.rs", "verif_ac")],
     "src/block_writer.rs": "block_writer_h.rs",
+    "src/writer.rs": "writer_h.rs",
     "src/reader/reader_cursor.rs": "cursor_h.rs",
     "src/reader/range_iter.rs": "range_h.rs",
     "src/reader/prefix_iter.rs": "prefix_h.rs",
@@ -624,7 +625,91 @@ for _lay in ("l2a", "l1", "l0b"):
            weak=True)
 
 
+# ------------------------------------------------------------------------------------------- BlockWriter units
+GEN_BW = []
+BW_FUNCS = ["BlockWriter::insert", "BlockWriter::finish", "BlockWriter::reset", "BlockWriter::current_size_estimate", "BlockWriter::last_key",
+            "BlockWriterBuilder::build/index_key_interval", "Drop for BlockBuffer", "varint_encode32"]
+BW_PATTERNS = [  # (n, key lengths, value lengths, interval, entries in the second block built with the same writer)
+    (0, [0, 0, 0], [0, 0, 0], 2, 1),
+    (1, [0, 0, 0], [0, 0, 0], 1, 1),
+    (2, [1, 2, 0], [2, 0, 0], 1, 1),
+    (2, [1, 2, 0], [2, 0, 0], 2, 2),
+    (3, [0, 1, 2], [2, 0, 1], 1, 2),
+    (3, [1, 2, 2], [0, 1, 2], 2, 1),
+    (3, [2, 2, 2], [8, 8, 8], 2, 3),
+    (3, [1, 1, 1], [0, 0, 0], 8, 3),
+]
+for _i, (_n, _kl, _vl, _iv, _n2) in enumerate(BW_PATTERNS):
+    _name = "c09_block_ref_p%d_i%d" % (_i, _iv)
+    GEN_BW.append("""#[kani::proof]
+#[kani::unwind(10)]
+fn %s() {
+    block_ref_check(%d, %s, %s, %d, %d);
+}
+""" % (_name, _n, _kl, _vl, _iv, _n2))
+    _q = _i in (3, 4, 5, 7)
+    HARNESSES.append(H("block_writer::verif_h::" + _name, ["C09", "C15", "C01", "C14", "C18"],
+                       tier={"C09": "quick" if _q else "thorough", "C15": "quick" if _q else "thorough", "*": "thorough"},
+                       kind="D", layer="L2", timeout=1200,
+                       decides="real BlockWriter = reference encoding: size estimate after every insert = payload + 8 x offsets + 4 = exact finished length; "
+                               "finished bytes (varint framing, key/value bytes, offset table every interval entries starting at 0, u32 BE count) equal the "
+                               "independent encoder at every position (one symbolic position per query); a second block built with the same writer after "
+                               "finish is encoded like a fresh one (reset)",
+                       functions=BW_FUNCS,
+                       bounds="first block %d entries, second %d; key lengths %s, value lengths %s (concrete), contents symbolic; interval %d" % (_n, _n2, _kl, _vl, _iv)))
+for _nm, _d in (("c18_block_order_panics", "second insert with a key <= the first PANICS (should_panic; key lengths symbolic 0..=2)"),
+                ("c18_block_order_accepts", "second insert with a strictly greater key is accepted"),
+                ("c18_block_order_after_reset", "after finish / reset any key is accepted again")):
+    HARNESSES.append(H("block_writer::verif_h::" + _nm, ["C18"], kind="K", layer="L2", timeout=900, should_panic=(_nm.endswith("panics")),
+                       decides="C18: " + _d, functions=["BlockWriter::insert", "BlockWriter::finish", "BlockWriter::reset"],
+                       bounds="two keys of symbolic length 0..=2 and symbolic content"))
+
+# ------------------------------------------------------------------------------------------- L1 writer
+GEN_WRITER = []
+WRITER_FUNCS = ["Writer::insert", "Writer::into_inner", "WriterBuilder::build/index_levels/index_key_interval", "writer::compress_and_write_block",
+                "compression::compress(None)", "BlockWriter::insert/finish/reset/current_size_estimate/last_key", "CountWrite::write/count/into_inner",
+                "Metadata::write_into", "byteorder write_u64/u8/u32", "std Write::write_all"]
+# (n, key lengths, value lengths, block threshold, interval, levels)
+WRITER_CFGS = [
+    ("empty_l0", 0, [0, 0, 0, 0], [0, 0, 0, 0], 24, 2, 0, True),
+    ("empty_l2", 0, [0, 0, 0, 0], [0, 0, 0, 0], 24, 2, 2, True),
+    ("one_l0", 1, [1, 0, 0, 0], [1, 0, 0, 0], 24, 8, 0, True),
+    ("two_nocut_l1", 2, [0, 2, 0, 0], [2, 0, 0, 0], 64, 2, 1, True),
+    ("three_cut_l0_i1", 3, [1, 1, 2, 0], [1, 0, 2, 0], 20, 1, 0, True),
+    ("four_cut_l0_i2", 4, [1, 2, 2, 2], [0, 1, 1, 2], 22, 2, 0, False),
+    ("four_cut_l1_i2", 4, [1, 1, 1, 2], [1, 1, 1, 1], 22, 2, 1, True),
+    ("four_cut_l2_i1", 4, [1, 1, 1, 1], [1, 1, 1, 1], 16, 1, 2, True),   # every entry its own block; level-2 blocks cut too
+    ("four_cut_l2_i8", 4, [2, 2, 2, 2], [0, 0, 0, 0], 30, 8, 2, False),
+    ("four_cut_l3_i1", 4, [1, 1, 1, 1], [0, 0, 0, 0], 16, 1, 3, False),   # two index levels cut in the same insert
+    ("big_entry_l1", 2, [2, 2, 0, 0], [2, 2, 0, 0], 12, 2, 1, False),       # every entry larger than the block threshold
+]
+for _nm, _n, _kl, _vl, _b, _iv, _lv, _q in WRITER_CFGS:
+    _name = "c01_writer_ref_" + _nm
+    GEN_WRITER.append("""writer_harness!(%s, {
+    let f = writer_ref_check(%d, %s, %s, %d, %d, %d);
+    kani::cover!(f.len >= 22);
+    kani::cover!(f.nblocks >= 1);
+});
+""" % (_name, _n, _kl, _vl, _b, _iv, _lv))
+    HARNESSES.append(H("writer::verif_h::" + _name, ["C01", "C09", "C15", "C13", "C11"],
+                       tier={"C01": "quick" if _q else "thorough", "C09": "quick" if _q else "thorough", "C15": "quick" if _q else "thorough", "*": "thorough"},
+                       kind="D", layer="L1", timeout=2400, mem="medium",
+                       decides="Ref = Writer: the real writer's byte stream (through a comparing sink) equals the independent reference encoding of the V2 "
+                               "format for symbolic key/value contents: length-prefixed blocks, varint framing, offset tables, index entries "
+                               "(last key -> child offset, u64 BE) per level, blocks cut exactly when the size estimate reaches the threshold (levels >= 2 too, "
+                               "0 and 1 never), 22-byte trailer last; entries_count = inserts; exactly one flush",
+                       functions=WRITER_FUNCS,
+                       stubs=["sink = CheckSink (compares each write with the expected stream at the running position)"],
+                       bounds="%d entries, key lengths %s, value lengths %s (concrete), contents symbolic strictly ascending; block threshold %d (field set "
+                              "directly), interval %d, index_levels %d; unwind 10" % (_n, _kl[:_n], _vl[:_n], _b, _iv, _lv),
+                       outside="symbolic lengths (Vec growth over symbolic sizes exceeds 20 GB), codecs, > 4 entries"))
+
+
 def generate(kit_dst):
+    with open(os.path.join(kit_dst, "block_writer_gen.rs"), "w") as f:
+        f.write("// generated by registry.py from BW_PATTERNS\n" + "\n".join(GEN_BW))
+    with open(os.path.join(kit_dst, "writer_gen.rs"), "w") as f:
+        f.write("// generated by registry.py from WRITER_CFGS\n" + "\n".join(GEN_WRITER))
     with open(os.path.join(kit_dst, "layout_gen.rs"), "w") as f:
         f.write(layout_rust())
     with open(os.path.join(kit_dst, "block_gen.rs"), "w") as f:
